@@ -183,21 +183,8 @@ def subscripts(ctx):
                     r.ok(f"{name}({n1},{n2}) = '{spec}'")
                 else:
                     r.fail(f.qualname, f"{n1},{n2}", f.file, f.lineno, name, f"({n1},{n2}) gives '{spec}', expected a contraction equivalent to '...{want[0][0]},...{want[0][1]}->...{want[1]}'")
-    # literal subscripts of __matmul__
-    r2 = ctx.rule("R12.2", "literal einsum subscripts in FeArray.__matmul__ are the matrix-vector / vector-matrix products", min_instances=2)
-    f = fe.methods["__matmul__"]
-    want_by_ranks = {(1, 2): canon(["i", "ij"], "j"), (2, 1): canon(["ij", "j"], "i")}
-    for n in ast.walk(f.node):
-        if isinstance(n, ast.If):
-            t = norm_text(n.test)
-            for (a, b), want in want_by_ranks.items():
-                if t == f"ndim1 == {a} and ndim2 == {b}":
-                    r2.instance(fn=f.qualname)
-                    specs = [c.args[0].value for c in ast.walk(ast.Module(body=n.body, type_ignores=[])) if isinstance(c, ast.Call) and (dotted(c.func) or "") == "np.einsum" and isinstance(c.args[0], ast.Constant)]
-                    if specs and canon(*parse_spec(specs[0])) == want:
-                        r2.ok(f"ranks ({a},{b}): '{specs[0]}'")
-                    else:
-                        r2.fail(f.qualname, f"ranks{a}{b}", f.file, n.lineno, "FeArray.__matmul__", f"ranks ({a},{b}) use {specs}, expected the product contracting the shared index")
+    # (R12.2 - the literal einsum subscripts of __matmul__ matched against the text of its `if` tests - is retired: it lost its
+    #  instances on a tuple-comparison rewrite, refactored/C12-R3; the products of every rank pair are decided by R12.7.)
 
 
 def reducers(ctx):
